@@ -4,6 +4,7 @@ import (
 	"encoding/json"
 	"fmt"
 	"os"
+	"path"
 	"sort"
 	"strings"
 	"testing"
@@ -28,7 +29,7 @@ type C02 struct{}
 func (C02) ID() string { return "C02" }
 
 func (C02) Rule() string {
-	return "Tree with 3-8 healthy repository fixtures of different built-in extractors at production paths (probed with the real FileRequired) + one victim: a fixture with 1-4 stacked corruption operators (truncate, bit flip, byte substitution, zero block, duplicated/transposed block, garbage tail, emptied; also on an inner file of a zip container), seeded read chunking, optional read fault on the victim; multi-file fixtures (requirements -r includes incl. self-includes and >64 KiB lines, go.sum, chrome _locales); victims required by two or more extractors in both extractor orders; foreign content at another extractor's path. Two real Scanner.Scan runs (healthy baseline, corrupted) with every extractor enabled that the capabilities allow. Non-trivial = the corrupted content differs from the healthy one (or the read fault fired), an extractor that got the victim returned an error or different packages, and at least one other extractor reported packages. " + theTable().summary()
+	return "Tree with 3-8 healthy repository fixtures of different built-in extractors at production paths (probed with the real FileRequired) + one victim: a fixture with 1-4 stacked corruption operators (truncate, bit flip, byte substitution, zero block, duplicated/transposed block, garbage tail, emptied; also on an inner file of a zip container), seeded read chunking, optional read fault on the victim; multi-file fixtures (requirements -r includes incl. self-includes and >64 KiB lines, go.sum, chrome _locales); victims required by two or more extractors in both extractor orders; foreign content at another extractor's path; sibling zip bombs; accepted paths that cannot be stat'ed (sticky/one-shot stat fault) or have been replaced by a dangling link / a link to a directory (ReadSymlinks); one-shot and persistent (sticky) read faults; a harness canary extractor (canary-*.txt) in every scan that panics or errors on a marker the scenario plants = plugin failure as a fault kind. Two real Scanner.Scan runs (healthy baseline, corrupted) with every extractor enabled that the capabilities allow. Non-trivial = the corrupted content differs from the healthy one (or the read fault fired), an extractor that got the victim returned an error or different packages, and at least one other extractor reported packages. " + theTable().summary()
 }
 
 func (C02) Decode(raw json.RawMessage) (any, error) {
@@ -54,7 +55,11 @@ func (C02) Gen(rt *rapid.T, tier string) any {
 	}
 	sc := &C02Scenario{RunSpec: RunSpec{Mode: mode, OS: osName, Running: running, CancelAt: -1}}
 	p := newPlacer(t)
-	kind := oneOf(rt, []string{"plain", "plain", "plain", "plain", "shared", "shared", "include", "inner", "foreign", "sibling"}, "kind")
+	kind := oneOf(rt, []string{"plain", "plain", "plain", "plain", "shared", "shared", "include", "inner", "foreign", "sibling",
+		"nostat", "symlink", "canary"}, "kind")
+	if kind == "nostat" && mode == "real" {
+		kind = "symlink" // stat faults need the simulated disk; a dangling link works on the real one too
+	}
 	if chance(rt, 2, "zipbomb") {
 		kind = "zipbomb"
 	}
@@ -128,6 +133,18 @@ func (C02) Gen(rt *rapid.T, tier string) any {
 				z[zi].Src.Ops = genOps(rt, 1500, "iop")
 				avoid[t.Fix[fi].Ext] = true
 			}
+		}
+	case "canary":
+		// plugin failure as a fault kind: the harness canary extractor fails on the victim
+		i := p.next
+		p.next++
+		m := Op{Kind: "marker", Off: pick(rt, 60, "canary.off")}
+		if chance(rt, 25, "canary.err") {
+			m.Val = 1
+		}
+		if p.add(FileSpec{Path: fmt.Sprintf("srv/canary%d/canary-%d.txt", i, i), Src: Src{Text: canaryText(i), Ops: []Op{m}}}) {
+			victim = len(p.files) - 1
+			p.dirs[fmt.Sprintf("srv/canary%d", i)] = true
 		}
 	case "zipbomb":
 		// a small jar whose many sibling inner "archives" inflate to a multiple of the extractor's
@@ -205,7 +222,7 @@ func (C02) Gen(rt *rapid.T, tier string) any {
 				victim = sib[pick(rt, len(sib), "sib")]
 			}
 		}
-		if kind != "sibling" {
+		if kind != "sibling" && kind != "nostat" && kind != "symlink" {
 			kind = "plain"
 		}
 		// sometimes a second, healthy file of the same extractor: the owner's other files
@@ -226,11 +243,28 @@ func (C02) Gen(rt *rapid.T, tier string) any {
 	if rapid.Bool().Draw(rt, "osrelease") {
 		p.add(FileSpec{Path: "etc/os-release", Src: Src{Text: osRelease}})
 	}
+	if kind == "canary" || chance(rt, 30, "canary.healthy") {
+		// healthy canary files: the canary's other files / the canary as an unaffected extractor
+		for k, n := 0, 1+pick(rt, 2, "canary.n"); k < n && (kind != "canary" || chance(rt, 75, "canary.other")); k++ {
+			i := p.next
+			p.next++
+			p.add(FileSpec{Path: fmt.Sprintf("opt/canary%d/canary-%d.txt", i, i), Src: Src{Text: canaryText(i)}})
+		}
+	}
 	sc.Files = p.files
 	sc.Victim = victim
 	v := &sc.Files[victim]
 	vb, _ := v.Src.Bytes(false)
-	if !v.Src.HasOps() && (kind != "include" || rapid.Bool().Draw(rt, "incops")) && kind != "foreign" && (kind != "zipbomb" || rapid.Bool().Draw(rt, "zbops")) {
+	if kind == "symlink" {
+		// the file has been replaced by a link that cannot be read: dangling, or to a directory
+		sc.ReadSymlinks = true
+		v.CorruptLink = "no/such/target"
+		if rapid.Bool().Draw(rt, "link.dir") {
+			v.CorruptLink = path.Dir(v.Path)
+		}
+	}
+	if !v.Src.HasOps() && (kind != "include" || rapid.Bool().Draw(rt, "incops")) && kind != "foreign" && (kind != "zipbomb" || rapid.Bool().Draw(rt, "zbops")) &&
+		kind != "symlink" && (kind != "nostat" || rapid.Bool().Draw(rt, "nsops")) {
 		v.Src.Ops = genOps(rt, len(vb), "op")
 	}
 	if kind == "foreign" && rapid.Bool().Draw(rt, "fops") {
@@ -245,7 +279,13 @@ func (C02) Gen(rt *rapid.T, tier string) any {
 			if sc.Disk.Chunk > 0 && rapid.Bool().Draw(rt, "fault.late") {
 				k = rapid.IntRange(1, len(vb)/sc.Disk.Chunk+2).Draw(rt, "fault.k2")
 			}
-			sc.Disk.Faults = []scan.Fault{{Op: "read", Path: v.Path, K: k, Kind: oneOf(rt, []string{"eio", "eio-partial", "perm"}, "fault.kind")}}
+			// one-shot, or persistent from the k-th read on (a bad block stays bad)
+			sc.Disk.Faults = []scan.Fault{{Op: "read", Path: v.Path, K: k, Kind: oneOf(rt, []string{"eio", "eio-partial", "perm"}, "fault.kind"), Sticky: chance(rt, 40, "fault.sticky")}}
+		}
+		if kind == "nostat" {
+			// the path is accepted by name, but the file cannot be stat'ed when FileRequired asks
+			sc.Disk.Faults = append(sc.Disk.Faults, scan.Fault{Op: "stat", Path: v.Path, K: 1 + pick(rt, 7, "stat.k")/6,
+				Kind: oneOf(rt, []string{"eio", "perm", "notexist"}, "stat.kind"), Sticky: chance(rt, 70, "stat.sticky")})
 		}
 	}
 	return sc
@@ -334,6 +374,9 @@ func fatal(out *sim.Outcome, o *Obs, which string) bool {
 	case o.Budget != "":
 		out.Violate("hang", "hang:"+o.Budget, "%s run: per-Extract budget exceeded (%s) after %d seam events: extraction does not terminate within the simulated-step budget", which, o.Budget, o.Events)
 		return true
+	case o.Panic != "" && strings.HasPrefix(o.Panic, "canary:"):
+		out.Violate("plugin-panic-not-contained", "plugin-panic-not-contained", "%s run: the panic of one plugin (the harness canary extractor) took the whole scan down: %s\n%s", which, o.Panic, o.PanicStack)
+		return true
 	case o.Panic != "":
 		out.Violate("panic", "panic:"+o.PanicExt+":"+o.PanicSite, "%s run: panic reached the harness (last extractor started: %s): %s\n%s", which, o.PanicExt, o.Panic, o.PanicStack)
 		return true
@@ -341,7 +384,7 @@ func fatal(out *sim.Outcome, o *Obs, which string) bool {
 		out.Violate("no-result", "no-result", "%s run: Scan returned nil", which)
 		return true
 	}
-	if o.ExtPanic != "" {
+	if o.ExtPanic != "" && o.ExtPanicExt != canaryName {
 		// not fatal for the comparison: the engine contained it and the scan went on
 		out.Violate("panic", "panic:"+o.ExtPanicExt+":"+o.ExtPanicSite, "%s run: Extract of %s panicked (the engine recovered it and reported it as this extractor's error, the scan went on): %s\n%s", which, o.ExtPanicExt, o.ExtPanic, o.ExtPanicStack)
 	}
@@ -426,7 +469,7 @@ func (c C02) evaluate(sc *C02Scenario) *sim.Outcome {
 	if err1 != nil || err2 != nil {
 		panic(fmt.Sprintf("harness: fixture unreadable: %v %v", err1, err2))
 	}
-	differs := string(hb) != string(cb)
+	differs := string(hb) != string(cb) || v.CorruptLink != ""
 	for _, o := range v.Src.Ops {
 		out.Count("op."+o.Kind, 1)
 	}
@@ -441,7 +484,7 @@ func (c C02) evaluate(sc *C02Scenario) *sim.Outcome {
 	}
 	out.Executions++
 	out.Sample = map[string]any{"os": sc.OS, "mode": sc.Mode, "kind": sc.Kind, "files": len(sc.Files), "victim": v.Path, "content": v.Src.describe(),
-		"chunk": sc.Disk.Chunk, "faults": sc.Disk.Faults, "front": sc.Order.Front}
+		"chunk": sc.Disk.Chunk, "faults": sc.Disk.Faults, "front": sc.Order.Front, "corrupt_link": v.CorruptLink}
 	if fatal(out, base, "healthy") {
 		out.HistoryFP = base.HistFP
 		return out
@@ -490,12 +533,19 @@ func (c C02) evaluate(sc *C02Scenario) *sim.Outcome {
 	if len(owners) >= 2 {
 		out.Count("victim_shared_by_2+", 1)
 	}
-	if len(sc.Disk.Faults) > 0 {
-		out.Count("fault.read.planned", 1)
-		if cor.Fired[sc.Disk.Faults[0].Site()] > 0 {
-			out.Count("fault.read.fired", 1)
+	for _, f := range sc.Disk.Faults {
+		k := "fault." + f.Op
+		if f.Sticky {
+			k += ".sticky"
+		}
+		out.Count(k+".planned", 1)
+		if cor.Fired[f.Site()] > 0 {
+			out.Count(k+".fired", 1)
 			differs = true
 		}
+	}
+	if v.CorruptLink != "" {
+		out.Count("victim_replaced_by_link", 1)
 	}
 
 	// (2) memory budgets per Extract, confirmed by a second run of the same scan
@@ -527,6 +577,15 @@ func (c C02) evaluate(sc *C02Scenario) *sim.Outcome {
 		}
 	}
 
+	// a victim replaced by a dangling link cannot be opened: the engine records the failed open as
+	// the error of every extractor that required the path, and Extract is not called
+	openFails := false
+	if v.CorruptLink != "" {
+		if root, _, err := buildTree(&sc.RunSpec, true); err == nil {
+			openFails = root.Resolve(v.Path) == nil
+		}
+	}
+
 	// (3) the scan completes
 	if cor.Overall != plugin.ScanStatusSucceeded {
 		out.Violate("scan-failed", "scan-failed:victim-of:"+ownerList, "overall status %s (%s) although only file %s was corrupted", statusName(cor.Overall), cor.OverallMsg, v.Path)
@@ -551,7 +610,7 @@ func (c C02) evaluate(sc *C02Scenario) *sim.Outcome {
 		var failedBefore []string
 		for _, e := range cor.Enabled {
 			req, consulted := cor.Required[e][p]
-			if _, was := base.Required[e][p]; !consulted && was || consulted && req && !extracted[e+"|"+p] {
+			if _, was := base.Required[e][p]; !consulted && was || consulted && req && !extracted[e+"|"+p] && !(openFails && p == v.Path) {
 				what := "not consulted"
 				if consulted {
 					what = "required the file but did not get it"
@@ -576,6 +635,10 @@ func (c C02) evaluate(sc *C02Scenario) *sim.Outcome {
 				anyErr = anyErr || er.Err != ""
 				found = found || er.NonEmpty
 			}
+		}
+		if openFails && cor.Required[e][v.Path] {
+			anyErr = true
+			owners[e] = true
 		}
 		want := plugin.ScanStatusSucceeded
 		if anyErr && found {
